@@ -22,6 +22,10 @@ func main() {
 		runCases(os.Args[2:])
 	case "stress":
 		runStress(os.Args[2:])
+	case "hostile-child":
+		var idx int
+		fmt.Sscan(os.Args[3], &idx)
+		runHostileChild(os.Args[2], idx)
 	default:
 		fmt.Fprintln(os.Stderr, "unknown subcommand", os.Args[1])
 		os.Exit(2)
